@@ -430,6 +430,8 @@ class FakeZarrDataset:
     def __getitem__(self, i):
         if i != 0:
             raise IndexError(i)
+        if self.blob is None:
+            return None  # fill value of a dataset that was created but never assigned
         return self.codec.decode(self.blob)
 
     def __setitem__(self, i, value):
@@ -473,8 +475,8 @@ class ZarrResource:
 
     def read(self):
         ds = self.group.sets.get(self.name)
-        if ds is None:
-            return ABSENT
+        if ds is None or ds.blob is None:
+            return ABSENT  # no dataset, or one that was created but never assigned
         return json.loads(ds.blob) if isinstance(ds.blob, (bytes, str)) else ds[0]
 
     def ext_write(self, value):
